@@ -120,7 +120,7 @@ impl StorageHandle {
         &self,
         keyspace: &str,
     ) -> heed::Result<Vec<(Key, HLCTimestamp, bool)>> {
-        self.submit_task(keyspace, move |env: &Env, kv: &KvDB, meta: &MetaDB| {
+        self.submit_read_task(keyspace, move |env: &Env, kv: &KvDB, meta: &MetaDB| {
             let mut entries = Vec::new();
             let txn = env.read_txn()?;
 
@@ -198,7 +198,7 @@ impl StorageHandle {
         keyspace: &str,
         key: u64,
     ) -> heed::Result<Option<Document>> {
-        self.submit_task(keyspace, move |env: &Env, kv: &KvDB, meta: &MetaDB| {
+        self.submit_read_task(keyspace, move |env: &Env, kv: &KvDB, meta: &MetaDB| {
             let txn = env.read_txn()?;
             if let Some(doc) = kv.get(&txn, &key)? {
                 let ts = meta.get(&txn, &key)?.unwrap();
@@ -218,7 +218,7 @@ impl StorageHandle {
     ) -> heed::Result<Vec<Document>> {
         let keys = Vec::from_iter(keys);
 
-        self.submit_task(keyspace, move |env: &Env, kv: &KvDB, meta: &MetaDB| {
+        self.submit_read_task(keyspace, move |env: &Env, kv: &KvDB, meta: &MetaDB| {
             let mut docs = Vec::with_capacity(keys.len());
             let txn = env.read_txn()?;
             for key in keys {
@@ -231,6 +231,42 @@ impl StorageHandle {
             Ok(docs)
         })
         .await
+    }
+
+    /// Submits a reader task to execute on the KV store.
+    ///
+    /// Unlike a writer task this does not bring the keyspace into existence: reading
+    /// from a keyspace nothing was ever written to yields the empty result.
+    async fn submit_read_task<CB, T>(&self, keyspace: &str, inner: CB) -> heed::Result<T>
+    where
+        T: Default + Send + 'static,
+        CB: FnOnce(&Env, &KvDB, &MetaDB) -> heed::Result<T> + Send + 'static,
+    {
+        let (tx, rx) = oneshot::channel();
+        let name = keyspace.to_owned();
+
+        let cb = move |env: &Env,
+                       keyspace_list: &KeyspaceDB,
+                       databases: &mut DatabaseKeyspace| {
+            let known = databases.contains_key(&name)
+                || env
+                    .read_txn()
+                    .and_then(|txn| keyspace_list.get(&txn, &name))
+                    .map(|entry| entry.is_some())
+                    .unwrap_or(true);
+            let _ = tx.send(known);
+        };
+
+        self.tx
+            .send_async(Box::new(cb))
+            .await
+            .expect("send message");
+
+        if rx.await.unwrap() {
+            self.submit_task(keyspace, inner).await
+        } else {
+            Ok(T::default())
+        }
     }
 
     /// Submits a writer task to execute on the KV store.
